@@ -21,9 +21,33 @@ class StmtMixin:
                     continue
                 nxt += self.exec_stmt(stmt, en, s)
             outs = nxt
+            if self.cur_contract is not None and self.cur_contract.cuts and \
+                    self.frame_func is self.cur_func and self.depth == 0:
+                outs = self.apply_cuts(stmt, outs)
             if len([o for o in outs if o[2] == "fall"]) > self.max_paths:
                 raise OutOfReach("path explosion (%d paths) in %s at line %d" % (
                     len(outs), self.cur_name, stmt.lineno))
+        return outs
+
+    def apply_cuts(self, stmt, outs):
+        """Hint assertions (contract.cuts): after the statement whose source
+        starts with the given text, prove the assertion on every fall-through
+        path and keep it as a fact (an `assert` in the sidecar, not in /repo)."""
+        src = None
+        for k, (pattern, texts) in enumerate(self.cur_contract.cuts):
+            if src is None:
+                src = ast.unparse(stmt)
+            if not src.startswith(pattern):
+                continue
+            for (en, s, sig, v) in outs:
+                if sig != "fall":
+                    continue
+                for j, t in enumerate(texts):
+                    (s_, val) = self.ev1(self.parse(t), en, s)
+                    (s_, b), = self.truth(val, s)
+                    self.oblige("%s.cut[%d.%d]#%s" % (self.cur_name, k, j,
+                                                     self.path_tag(s)), s, b, kind="cut")
+                    s.assume(b)
         return outs
 
     def exec_stmt(self, stmt, env, st):
